@@ -34,3 +34,16 @@ Theorem C08_call_runs_the_substituted_body : forall pb m n l c s o sa blocks sd,
     if Nat.eqb (cdepth cg) 0 then (set_budget 0 false cg, sg <| cloc := None |>) else (cg, sg).
 Proof. exact call_runs_the_body. Qed.
 Print Assumptions C08_call_runs_the_substituted_body.
+
+(* the substitution itself against the manual's rules (Proofs/SubstSpec.v): when every argument the body refers to
+   exists, argsSubstText is the inline-by-inline replacement - \$N by the N-th argument, \$[name] by the named one,
+   \$?[flag] by 1 or nothing, \$@ by the remaining arguments joined by blanks, everything else kept - reports nothing and
+   leaves the state alone; text that refers to no argument is unchanged; substitution distributes over concatenation *)
+Require SubstSpec.
+Theorem C08_substitution_rules : forall argsc a opts flags t s, forallb (SubstSpec.arg_defined a opts) t = true ->
+  Proc3.subst_text argsc a opts flags t s = (flat_map (SubstSpec.subst1 argsc a opts flags) t, s).
+Proof. exact SubstSpec.subst_text_spec. Qed.
+Theorem C08_text_without_arguments_is_unchanged : forall argsc a opts flags t s, forallb SubstSpec.plain t = true ->
+  Proc3.subst_text argsc a opts flags t s = (t, s).
+Proof. exact SubstSpec.subst_text_plain. Qed.
+Print Assumptions C08_substitution_rules.
